@@ -21,6 +21,7 @@ type inferredFrame struct {
 	why  string
 	unsafe bool
 	locks  bool // some sync Lock/Unlock is reachable
+	paramCalls bool // calls its own function-typed parameters: the call site must add their frames
 }
 
 var frameMu sync.Mutex
@@ -31,6 +32,10 @@ func (fc *FnCtx) inferFrame(fn *ssa.Function) *inferredFrame {
 	defer frameMu.Unlock()
 	if f, ok := frameCache[fn]; ok {
 		return f
+	}
+	forceBody := false
+	if _, ct := fc.eng.contractFor(fn); ct != nil && ct.AssignsInferred {
+		forceBody = true
 	}
 	res := &inferredFrame{keys: map[string]string{}}
 	seen := map[*ssa.Function]bool{}
@@ -145,7 +150,7 @@ func (fc *FnCtx) inferFrame(fn *ssa.Function) *inferredFrame {
 		if fc.eng.isPureExternal(full) {
 			return
 		}
-		if _, ct := fc.eng.contractFor(f); ct != nil && !ct.Inline && !(ct.Light && !ct.HasAssigns) {
+		if _, ct := fc.eng.contractFor(f); ct != nil && !ct.Inline && !(ct.Light && !ct.HasAssigns) && !ct.AssignsInferred && !(depth == 0 && forceBody) {
 			ks, all := fc.contractKeys(ct, f, f.Signature, nil)
 			if all {
 				res.all = true
@@ -273,6 +278,23 @@ func (fc *FnCtx) inferFrame(fn *ssa.Function) *inferredFrame {
 								continue
 							}
 						}
+						// function-valued arguments may be called by the callee
+						for _, a := range c.Args {
+							if _, isSig := a.Type().Underlying().(*types.Signature); isSig {
+								fns := resolveFuncValue(a, 0)
+								if fns == nil {
+									if _, isParam := a.(*ssa.Parameter); isParam && depth > 0 {
+										continue
+									}
+									res.all = true
+									res.why = "unknown function value passed to " + callee.String()
+									break
+								}
+								for _, g := range fns {
+									visit(g, depth+1)
+								}
+							}
+						}
 						visit(callee, depth+1)
 					case *ssa.MakeClosure:
 						visit(callee.Fn.(*ssa.Function), depth+1)
@@ -285,9 +307,13 @@ func (fc *FnCtx) inferFrame(fn *ssa.Function) *inferredFrame {
 						}
 						// call through a function value: bound closures created in this function are
 						// covered by MakeClosure below; anything else is unknown
-						if _, isParamOrField := c.Value.(*ssa.Parameter); isParamOrField {
-							res.all = true
-							res.why = "call through a function-typed parameter in " + full
+						if _, isParam := c.Value.(*ssa.Parameter); isParam && depth > 0 {
+							// covered where this function is called: the caller's function-valued
+							// arguments are visited there
+							continue
+						} else if isParam {
+							res.paramCalls = true
+							continue
 						} else {
 							res.all = true
 							res.why = "dynamic call in " + full + ": " + x.String()
@@ -308,10 +334,15 @@ func (fc *FnCtx) inferFrame(fn *ssa.Function) *inferredFrame {
 // resolveFuncValue: the functions a function-typed value can denote, when that can be read off
 // the SSA (closures and functions returned by a statically known callee, phis of those).
 func resolveFuncValue(v ssa.Value, depth int) []*ssa.Function {
-	if depth > 4 {
+	if depth > 8 {
 		return nil
 	}
 	switch x := v.(type) {
+	case *ssa.Const:
+		if x.IsNil() {
+			return []*ssa.Function{} // nil function value: calling it panics, no effect
+		}
+		return nil
 	case *ssa.Function:
 		return []*ssa.Function{x}
 	case *ssa.MakeClosure:
